@@ -214,6 +214,11 @@ def build_optimized_pattern(choices: list[ChoiceChoice], repeat: str = "") -> st
     if not choices:
         return ""
 
+    if not _grouping_is_safe(choices):
+        # Grouping would move a literal ahead of an alternative that shadows
+        # it. Keep the alternatives in grammar order instead.
+        return _ordered_pattern(choices, repeat)
+
     char_class_parts: list[str] = []  # for single-char literals
     ranges: list[tuple[str, str]] = []  # for character ranges
     multi_sensitive: list[str] = []  # for multi-char sensitive literals
@@ -254,6 +259,70 @@ def build_optimized_pattern(choices: list[ChoiceChoice], repeat: str = "") -> st
         if repeat:
             return f"(?:{parts[0]}){repeat}"
         return parts[0]
+    return "(?:" + "|".join(parts) + ")" + repeat
+
+
+def _first_chars(choice: ChoiceLiteral) -> set[str]:
+    first = choice.value[0]
+    if choice.case is ChoiceCase.INSENSITIVE:
+        return {first, first.lower(), first.upper()}
+    return {first}
+
+
+def _shadows(earlier: ChoiceChoice, literal: ChoiceLiteral) -> bool:
+    """True if `earlier` and multi-character `literal` can match at the same place.
+
+    Ordered choice commits to `earlier`, so `literal` must not be tried first.
+    """
+    match earlier:
+        case ChoiceRange(start, end):
+            lo, hi = sorted((start, end))
+            return any(lo <= ch <= hi for ch in _first_chars(literal))
+        case ChoiceLiteral(value=val, case=case) if len(val) == 1:
+            chars = {val, val.lower(), val.upper()} if case is ChoiceCase.INSENSITIVE else {val}
+            return bool(chars & _first_chars(literal))
+        case ChoiceLiteral(value=val):
+            a, b = val.lower(), literal.value.lower()
+            return a != b and (a.startswith(b) or b.startswith(a))
+        case _:
+            return True  # Unicode property: assume it can.
+
+
+def _grouping_is_safe(choices: list[ChoiceChoice]) -> bool:
+    """True if moving multi-character literals first keeps the first match."""
+    for i, choice in enumerate(choices):
+        if not isinstance(choice, ChoiceLiteral) or len(choice.value) == 1:
+            continue
+        for earlier in choices[:i]:
+            moved_behind = not (
+                isinstance(earlier, ChoiceLiteral)
+                and len(earlier.value) > 1
+                and (
+                    earlier.case is ChoiceCase.SENSITIVE
+                    or choice.case is ChoiceCase.INSENSITIVE
+                )
+            )
+            if moved_behind and _shadows(earlier, choice):
+                return False
+    return True
+
+
+def _ordered_pattern(choices: list[ChoiceChoice], repeat: str) -> str:
+    parts: list[str] = []
+    for choice in choices:
+        match choice:
+            case UnicodePropertyRule(expression=RegexExpression(pattern=pattern)):
+                parts.append(pattern)
+            case ChoiceLiteral(value=val, case=ChoiceCase.INSENSITIVE) if len(val) == 1:
+                parts.append(_optimize_char_class([val.upper(), val.lower()], []))
+            case ChoiceLiteral(value=val, case=ChoiceCase.INSENSITIVE):
+                parts.append(f"(?i:{re.escape(val)})")
+            case ChoiceLiteral(value=val):
+                parts.append(re.escape(val))
+            case ChoiceRange(start, end):
+                parts.append(_optimize_char_class([], [(start, end)]))
+            case _:
+                raise ValueError(f"Unrecognized choice: {choice}")
     return "(?:" + "|".join(parts) + ")" + repeat
 
 
